@@ -191,3 +191,29 @@ def _gen_cost():
 
 
 _gen_cost()
+
+
+# ---- the `replace` pseudo-op (no row of its own in the AVM table: `replace S` assembles to replace2 S, bare `replace` to
+# replace3; DESIGN §5.2) ------------------------------------------------------------------------------------------------------
+def _gen_replace():
+    from tealer.teal.instructions.instructions import Replace
+    for prop, with_imm, without in (("stack_pop_size", OPS["replace2"][0], OPS["replace3"][0]),
+                                    ("stack_push_size", OPS["replace2"][1], OPS["replace3"][1])):
+        if prop not in vars(Replace):
+            continue
+        target = f"{I}Replace.{prop}"
+        c = contract(target, params={"self": T.Ref(Replace)}, returns=T.Int, tags=["C11"], touch=[])
+
+        def mk(with_imm, without):
+            return lambda self, result: Eq(result, If(IsNone(_read(self, Replace, "_idx")), without, with_imm))
+        ensures(c, f"replace:{prop}", mk(with_imm, without), tags=["C11"],
+                note="`replace S` (any S, 0 included) is replace2 S: pops 2; bare `replace` is replace3: pops 3")
+
+        def _samples():
+            for idx in (None, 0, 1, 2, 255):
+                yield {"self": Replace(idx)}
+        c.samples = _samples
+        GENERATED.append(target)
+
+
+_gen_replace()
